@@ -192,6 +192,9 @@ func (w *c14World) sendAndWait(c *vk.Ctx, r *rand.Rand, cl *udpClient, t *udpTar
 // c14ScenSeq hands the scenarios out in turn, so that every batch covers all of them.
 var c14ScenSeq atomic.Int64
 
+// c14ReapSeq alternates the two variants of the reaping-window scenario (together with the batch number).
+var c14ReapSeq atomic.Int64
+
 func pickSeq(seq *atomic.Int64, list []string) string {
 	return list[int(seq.Add(1)-1)%len(list)]
 }
@@ -264,7 +267,7 @@ func c14Expiry(c *vk.Ctx, r *rand.Rand) bool {
 				}
 				sock.SetDelayTimeout(250 * time.Millisecond)
 				variant := "reaper-slow-to-notice"
-				if as := w.rig.Rec.ByClient(cl.Addr.String()); ci%2 == 1 && len(as) == 1 {
+				if as := w.rig.Rec.ByClient(cl.Addr.String()); (c.Batch+int(c14ReapSeq.Add(1)))%2 == 0 && len(as) == 1 {
 					// the other half of the window: the relay loop has ended, the removal report is in
 					// progress (a slow metrics sink) and the entry is still in the table
 					variant = "removal-report-in-progress"
@@ -790,7 +793,7 @@ func init() {
 		Parallel:    func(t string) int { return 4 },
 		Timeout:     func(t string) time.Duration { return 25 * time.Minute },
 		Run: func(c *vk.Ctx) {
-			for _, s := range []string{"deadlines_checked", "expired_reclaimed_exactly_once", "fast_close_reclaimed", "dns_associations_kept", "shutdown_with_live_associations", "long_timeout_sequences", "leak_audits_passed", "process_configured_timeout_honoured_services", "process_configured_timeout_honoured_legacy-keys", "chatty_target_scenarios", "reaping_window_scenarios", "associations_opened_by_an_empty_datagram", "shutdowns_with_a_failing_deadline_call"} {
+			for _, s := range []string{"deadlines_checked", "expired_reclaimed_exactly_once", "fast_close_reclaimed", "dns_associations_kept", "shutdown_with_live_associations", "long_timeout_sequences", "leak_audits_passed", "process_configured_timeout_honoured_services", "process_configured_timeout_honoured_legacy-keys", "chatty_target_scenarios", "reaping_window_scenarios", "associations_opened_by_an_empty_datagram", "shutdowns_with_a_failing_deadline_call", "reaping_window_reaper-slow-to-notice", "reaping_window_removal-report-in-progress"} {
 				c.Require(s)
 			}
 			c14Run(c)
